@@ -278,6 +278,7 @@ def huge_sparse(ctx, s, classify, n_fill=50000):
 
 def judge_sessions(ctx, sessions, verdicts, classify=default_classify, lifted=None):
     lifted = (2 if ctx.quick else 10) if lifted is None else lifted
+    budget = {}                                     # per engine and form: every engine of the check gets its large inputs
     for s in sessions:
         api, drift = nc.failed_api_clauses(verdicts[s["sid"]])
         ctx.traces += 1
@@ -285,12 +286,13 @@ def judge_sessions(ctx, sessions, verdicts, classify=default_classify, lifted=No
                 and sum(1 for e in s["events"] if e["op"] == "Join" and not e["raised"]) == 1 and any(e["op"] == "Join" and e["ret"] for e in s["events"])):
             ctx._huge_done = True
             huge_sparse(ctx, s, classify, 50000 if ctx.quick else 70000)
-        if (lifted > 0 and not api and s.get("kind") == "plain" and s["inp"]["mode"] in ("lev", "hamming") and 4 <= len(s["inp"]["seqs"]) <= 40
+        bkey = (s["inp"]["engine"], bool(s["inp"]["two"]))
+        if (budget.get(bkey, lifted) > 0 and not api and s.get("kind") == "plain" and s["inp"]["mode"] in ("lev", "hamming") and 4 <= len(s["inp"]["seqs"]) <= 40
                 and (s["inp"]["engine"] != "hash" or s["inp"]["k"] == 1) and not any(e["op"] == "Join" and e["raised"] for e in s["events"])
                 and sum(1 for e in s["events"] if e["op"] == "Join") == 1 and (not s["inp"]["two"] or len(s["inp"]["seqs2"]) <= 40)):
-            lifted -= 1
+            budget[bkey] = budget.get(bkey, lifted) - 1
             from . import lifted as lf
-            lifted_big(ctx, s, classify, lf.boundary_size(lifted + ctx.seed + len(s["inp"]["seqs"])))
+            lifted_big(ctx, s, classify, lf.boundary_size(budget[bkey] + ctx.seed + len(s["inp"]["seqs"])))
         for l, op, clause in api:
             ev = s["events"][l - 1]
             ctx.violation(classify(s["inp"], clause),
